@@ -145,13 +145,15 @@ def run_history(history, sysb):
 
 
 def e2_bfs(args) -> Acc:
-    tier, si, depth, nact = args
+    tier, si, depth, nact, first = args
     acc = Acc()
     sysb = SYSTEMS[si]
     actors = ACTORS[:nact]
     events = [("p", pr, src, *v) for (pr, src) in actors for v in VARIANTS] + [("t", d) for d in TICKS]
     seen = set()
-    frontier = collections.deque([()])
+    # the search is sharded by its first event (states are merged within a shard only)
+    start = () if first is None else (events[first],)
+    frontier = collections.deque([start])
     seen.add(digest([]))
     while frontier:
         hist = frontier.popleft()
@@ -291,7 +293,11 @@ def run(tier: str, seed: int, workers: int):
         for n in range(1, nmax + 1):
             for p1 in prefs:
                 shards.append(("e3", tier, si, n, p1))
-        shards.append(("e2", tier, si, 4 if tier == "quick" else 5, 3 if tier == "quick" else 4))
+        if tier == "quick":
+            shards.append(("e2", tier, si, 4, 3, None))
+        else:
+            for first in range(3 * len(VARIANTS) + len(TICKS)):
+                shards.append(("e2", tier, si, 5, 3, first))
     evs = EXP_EVENTS if tier == "quick" else EXP_EVENTS_T
     for si in ((0,) if tier == "quick" else (0, 1)):
         for e1 in evs:
